@@ -311,6 +311,10 @@ func archive(workerID string, seed *models.Item) {
 				isBadStatusCode := resp.StatusCode >= 500 || slices.Contains([]int{408, 425, 429}, resp.StatusCode)
 				isDiscardedChallengePage := discarded && reasoncode.IsChallengePage(discardReason)
 				if isBadStatusCode || isDiscardedChallengePage {
+					// This response was received like any other: count it under its status code,
+					// whether the request is retried or given up on
+					stats.HTTPReturnCodesIncr(strconv.Itoa(resp.StatusCode))
+
 					if globalBucketManager != nil {
 						globalBucketManager.AdjustOnFailure(req.URL.Host, resp.StatusCode)
 					}
